@@ -655,7 +655,7 @@ Lemma aco_inv cf now st c cl g t p off order ts lb P :
     ring_at N (cons_topic cl' g t) i = w' /\
     (forall g' t' j, (g' <> g \/ t' <> t \/ j <> i) -> ring_at N (cons_topic cl' g' t') j = ring_at N (cons_topic cl g' t') j) /\
     (forall g', ginfo_cl cl' g' =
-                if g' =? g then Some ((if app then ts else glast0 (ginfo_cl cl g)), t :: drop_key t (gkeys0 (ginfo_cl cl g)))
+                if g' =? g then Some ((if commit_stored (ring_at N (cons_topic cl g t) i) order then Z.max ts (glast0 (ginfo_cl cl g)) else glast0 (ginfo_cl cl g)), t :: drop_key t (gkeys0 (ginfo_cl cl g)))
                 else ginfo_cl cl g').
 Proof.
   intros N i Hc [Hb Hg] Hnew. unfold add_consumer_offset, reaches_ring. rewrite Hc.
@@ -686,7 +686,7 @@ Proof.
   destruct (ring_step (cf_min_distance cf) (ring_at N (cons_topic cl g t) i) (mkCommit off order ts) (commit_lag boff off))
     as [w' app] eqn:Ers.
   set (parts' := set_nth parts i (mkCpartition (Some w') (pr_owner pr) (pr_client pr))).
-  set (grp' := mkCgroup (set (g_topics grp) t parts') (if app then ts else g_last grp)).
+  set (grp' := mkCgroup (set (g_topics grp) t parts') (if commit_stored (ring_at N (cons_topic cl g t) i) order then Z.max ts (g_last grp) else g_last grp)).
   exists (mkCluster (cl_broker cl) (set (cl_consumer cl) g grp')), boff, w', app.
   assert (Hilen : (i < length parts)%nat) by (apply nth_error_Some; congruence).
   assert (Hparts' : parts_ok (P g t) tl parts').
@@ -883,9 +883,13 @@ Proof.
   destruct (get (cl_consumer cl) g) as [grp|] eqn:Egr; [|left; reflexivity]. right.
   destruct (cinv_remove_group N lb P cl g Hinv) as [Hrm Hrk].
   destruct (t =? 0); [eexists; split; [reflexivity|]; split; [exact Hrm|split; [reflexivity|exact Hrk]]|].
-  destruct (remove (g_topics grp) t) as [|kv rest] eqn:Erm;
-    [eexists; split; [reflexivity|]; split; [exact Hrm|split; [reflexivity|exact Hrk]]|].
-  rewrite <- Erm. eexists. split; [reflexivity|]. destruct Hinv as [Hb Hg]. split; [split|split; [reflexivity|]].
+  assert (Hset : exists cl', Done (set st c (mkCluster (cl_broker cl) (set (cl_consumer cl) g
+                                 (mkCgroup (remove (g_topics grp) t) (g_last grp))))) RNone = Done (set st c cl') RNone /\
+                             cinv N lb P cl' /\ cl_broker cl' = cl_broker cl /\ rings_kept N cl cl').
+  2:{ destruct (remove (g_topics grp) t) as [|kv rest] eqn:Erm; [|exact Hset].
+      destruct (get (g_topics grp) t); [|exact Hset].
+      eexists; split; [reflexivity|]; split; [exact Hrm|split; [reflexivity|exact Hrk]]. }
+  eexists. split; [reflexivity|]. destruct Hinv as [Hb Hg]. split; [split|split; [reflexivity|]].
   - exact Hb.
   - cbn [cl_broker cl_consumer]. intros g' grp0 Hg'.
     apply get_set_inv in Hg'. destruct Hg' as [[-> ->]|[Hne Hg']]; [|apply Hg; exact Hg'].
@@ -1668,13 +1672,18 @@ Proof.
     - apply Z.eqb_neq in E. rewrite get_remove_neq by congruence. reflexivity. }
   destruct (t =? 0) eqn:Et0.
   - eexists. split; [reflexivity|]. intros g' t' j. cbn [orb]. apply Hrm. intros _ H; discriminate.
-  - destruct (remove (g_topics grp) t) as [|kv rest] eqn:Erm.
-    + eexists. split; [reflexivity|]. intros g' t' j. cbn [orb]. apply Hrm. intros _ Hne.
-      apply Z.eqb_neq in Hne. unfold cons_topic. rewrite Egr.
-      assert (Hn : get (g_topics grp) t' = None).
-      { rewrite <- (get_remove_neq (g_topics grp) t t') by congruence. rewrite Erm. reflexivity. }
-      rewrite Hn. apply ring_at_nil.
-    + rewrite <- Erm. eexists. split; [reflexivity|]. intros g' t' j. cbn [orb].
+  - assert (Hset : exists cl', Done (set st c (mkCluster (cl_broker cl) (set (cl_consumer cl) g
+                                   (mkCgroup (remove (g_topics grp) t) (g_last grp))))) RNone = Done (set st c cl') RNone /\
+             forall g' t' j, ring_at N (cons_topic cl' g' t') j =
+                    if (g' =? g) && (false || (t' =? t)) then new_ring N else ring_at N (cons_topic cl g' t') j).
+    2:{ destruct (remove (g_topics grp) t) as [|kv rest] eqn:Erm; [|exact Hset].
+        destruct (get (g_topics grp) t); [|exact Hset].
+        eexists. split; [reflexivity|]. intros g' t' j. cbn [orb]. apply Hrm. intros _ Hne.
+        apply Z.eqb_neq in Hne. unfold cons_topic. rewrite Egr.
+        assert (Hn : get (g_topics grp) t' = None).
+        { rewrite <- (get_remove_neq (g_topics grp) t t') by congruence. rewrite Erm. reflexivity. }
+        rewrite Hn. apply ring_at_nil. }
+    + eexists. split; [reflexivity|]. intros g' t' j. cbn [orb].
       unfold cons_topic at 1. cbn [cl_consumer]. destruct (g' =? g) eqn:E; cbn [andb].
       * apply Z.eqb_eq in E. subst g'. rewrite get_set_eq. cbn [g_topics]. destruct (t' =? t) eqn:E2.
         -- apply Z.eqb_eq in E2. subst t'. rewrite get_remove_eq. apply ring_at_nil.
@@ -1954,7 +1963,7 @@ Proof.
   - unfold delete_group. destruct (get st c0) as [cl0|] eqn:Hc; [|intros H; injection H as <- _; left; reflexivity].
     destruct (get (cl_consumer cl0) g0) as [grp|]; [|intros H; injection H as <- _; left; reflexivity].
     destruct (t0 =? 0); [intros H; injection H as <- _; right; eexists _, _, _; (split; [exact Hc|]); split; reflexivity|].
-    destruct (remove (g_topics grp) t0); intros H; injection H as <- _; right; eexists _, _, _; (split; [exact Hc|]); split; reflexivity.
+    destruct (remove (g_topics grp) t0); [destruct (get (g_topics grp) t0)|]; intros H; injection H as <- _; right; eexists _, _, _; (split; [exact Hc|]); split; reflexivity.
   - intros H. injection H as <- _. left; reflexivity.
   - destruct (get st c0); intros H; injection H as <- _; left; reflexivity.
   - destruct (get st c0); intros H; injection H as <- _; left; reflexivity.
@@ -2189,7 +2198,7 @@ Lemma ginfo_set_other st c0 cl' c g : c0 <> c -> ginfo (set st c0 cl') c g = gin
 Proof. intros H. unfold ginfo. rewrite get_set_neq by exact H. reflexivity. Qed.
 
 (* one request's effect on (lastCommit, topic keys) of group (c,g).
-   ceff: for a commit of this group, None = dropped before the ring, Some app = handed to the ring, app = "placed as the newest";
+   ceff: for a commit of this group, None = dropped before the ring, Some sto = handed to the ring, sto = "stored by it" (not a duplicate / backfill into a full ring);
    oeff: for an owner request of this group, None = ignored, Some kb = accepted, kb = "a broker offset is known for the partition" *)
 Definition ginfo_next (cf : config) (now c g : Z)
            (ceff : Z -> Z -> Z -> Z -> Z -> option bool) (oeff : Z -> Z -> option bool)
@@ -2198,7 +2207,7 @@ Definition ginfo_next (cf : config) (now c g : Z)
   | SetConsumerOffset c' g' t p off order ts =>
       if (c' =? c) && (g' =? g)
       then match ceff t p off order ts with
-           | Some app => Some ((if app then ts else glast0 G), t :: drop_key t (gkeys0 G))
+           | Some sto => Some ((if sto then Z.max ts (glast0 G) else glast0 G), t :: drop_key t (gkeys0 G))
            | None => G
            end
       else G
@@ -2215,7 +2224,10 @@ Definition ginfo_next (cf : config) (now c g : Z)
       then match G with
            | None => None
            | Some (L, ks) => if t' =? 0 then None
-                             else match drop_key t' ks with [] => None | ks' => Some (L, ks') end
+                             else match drop_key t' ks with
+                                  | [] => if existsb (fun k => k =? t') ks then None else Some (L, [])
+                                  | ks' => Some (L, ks')
+                                  end
            end
       else G
   | FetchConsumer c' g' =>
@@ -2236,6 +2248,12 @@ Proof.
   rewrite keys_remove_eq. reflexivity.
 Qed.
 
+Lemma existsb_keys_get {V} (m : amap V) t :
+  existsb (fun k => k =? t) (keys m) = match get m t with Some _ => true | None => false end.
+Proof.
+  unfold keys. induction m as [|[k v] r IH]; cbn; [reflexivity|]. destruct (k =? t); [reflexivity|exact IH].
+Qed.
+
 Lemma delete_group_ginfo st c cl g t :
   get st c = Some cl ->
   exists st', delete_group st c g t = Done st' RNone /\
@@ -2243,7 +2261,11 @@ Lemma delete_group_ginfo st c cl g t :
       if g' =? g
       then match ginfo_cl cl g with
            | None => None
-           | Some (L, ks) => if t =? 0 then None else match drop_key t ks with [] => None | ks' => Some (L, ks') end
+           | Some (L, ks) => if t =? 0 then None
+                             else match drop_key t ks with
+                                  | [] => if existsb (fun k => k =? t) ks then None else Some (L, [])
+                                  | ks' => Some (L, ks')
+                                  end
            end
       else ginfo_cl cl g'.
 Proof.
@@ -2255,8 +2277,12 @@ Proof.
     - apply Z.eqb_neq in E. rewrite get_remove_neq by congruence. reflexivity. }
   unfold ginfo_cl at 1. destruct (get (cl_consumer cl) g) as [grp|] eqn:Egr; cbn [option_map].
   - destruct (t =? 0); [eexists; split; [reflexivity|exact Hrm]|].
-    rewrite <- keys_remove_eq. destruct (remove (g_topics grp) t) as [|kv rest] eqn:Erm.
-    + eexists; split; [reflexivity|]. cbn [keys map]. exact Hrm.
+    rewrite <- keys_remove_eq, existsb_keys_get. destruct (remove (g_topics grp) t) as [|kv rest] eqn:Erm.
+    + cbn [keys map]. destruct (get (g_topics grp) t); [eexists; split; [reflexivity|]; exact Hrm|].
+      eexists; split; [reflexivity|]. intros g'. rewrite ginfo_set_same. unfold ginfo_cl at 1. cbn [cl_consumer].
+      destruct (g' =? g) eqn:E.
+      * apply Z.eqb_eq in E. subst g'. rewrite get_set_eq. reflexivity.
+      * apply Z.eqb_neq in E. rewrite get_set_neq by congruence. reflexivity.
     + rewrite <- Erm. eexists; split; [reflexivity|]. intros g'. rewrite ginfo_set_same. unfold ginfo_cl at 1. cbn [cl_consumer].
       destruct (g' =? g) eqn:E.
       * apply Z.eqb_eq in E. subst g'. rewrite get_set_eq. cbn [option_map g_last g_topics]. rewrite Erm. reflexivity.
@@ -2287,7 +2313,7 @@ Qed.
 (* the effects read on the state *)
 Definition ceff_st (cf : config) (now : Z) (st : state) (c g t p off order ts : Z) : option bool :=
   match reaches_ring cf now st c g t p ts with
-  | Some boff => Some (snd (ring_step (cf_min_distance cf) (ring_of cf st c g t p) (mkCommit off order ts) (commit_lag boff off)))
+  | Some boff => Some (commit_stored (ring_of cf st c g t p) order)
   | None => None
   end.
 Definition oeff_st (cf : config) (st : state) (c g t p : Z) : option bool :=
@@ -2331,7 +2357,7 @@ Proof.
   - unfold delete_group in Hstep. destruct (get st c0) as [cl0|]; [|injection Hstep as <- _; reflexivity].
     destruct (get (cl_consumer cl0) g0) as [grp|]; [|injection Hstep as <- _; reflexivity].
     destruct (t0 =? 0); [injection Hstep as <- _; apply Hset; exact Hne|].
-    destruct (remove (g_topics grp) t0); injection Hstep as <- _; apply Hset; exact Hne.
+    destruct (remove (g_topics grp) t0); [destruct (get (g_topics grp) t0)|]; injection Hstep as <- _; apply Hset; exact Hne.
   - injection Hstep as <- _. reflexivity.
   - destruct (get st c0); injection Hstep as <- _; reflexivity.
   - destruct (get st c0); injection Hstep as <- _; reflexivity.
@@ -2378,7 +2404,7 @@ Proof.
         apply Z.eqb_eq in Eg. subst g0. unfold ceff_st. rewrite Hre. reflexivity.
       * rewrite Hs in Hstep. injection Hstep as <- _. rewrite ginfo_set_same, Hgi. rewrite (Z.eqb_sym g g0).
         destruct (g0 =? g) eqn:Eg; [|unfold ginfo; rewrite Hc0; reflexivity].
-        apply Z.eqb_eq in Eg. subst g0. unfold ceff_st. rewrite Hre. unfold ring_of. rewrite Hc0, Hrs. cbn [snd].
+        apply Z.eqb_eq in Eg. subst g0. unfold ceff_st. rewrite Hre. unfold ring_of. rewrite Hc0.
         unfold ginfo. rewrite Hc0. reflexivity.
     + unfold add_consumer_offset in Hstep. rewrite Hc0 in Hstep. injection Hstep as <- _.
       destruct (g0 =? g) eqn:Eg; [|reflexivity]. apply Z.eqb_eq in Eg. subst g0.
